@@ -183,7 +183,8 @@ def gen_ops(tier, rng):
     # --- coordinates not strictly ascending (NetCDF input): shuffled, reversed, repeated
     for _ in range(25 if quick else 400):
         n = rng.choice([2, 3, 4, 5, 6])
-        coords = _coords(rng, n, 1)
+        uaxis = rng.choice(["leadtime", "time"])       # both window functions (seeded change C15e: time only)
+        coords = _coords(rng, n, 1) if uaxis == "leadtime" else [946684800 + c for c in _coords(rng, n, 3600)]
         kind = rng.choice(["shuffle", "shuffle", "dup", "reverse"])
         if kind == "shuffle":
             rng.shuffle(coords)
@@ -195,7 +196,7 @@ def gen_ops(tier, rng):
         h = rng.choice([1, 2, 3, 6, 30])
         vals = _vec(rng, n, 0.0)
         for name in rng.sample(ALL, 3):
-            yield "agg.window.unsorted", "preagg leadtime %s %s %s %s" % (name, xr(h), xvec(coords), xvec(vals))
+            yield "agg.window.unsorted", "preagg %s %s %s %s %s" % (uaxis, name, xr(h), xvec(coords), xvec(vals))
     # --- through the command line: -T / -Tagg / -Tx wiring (oracle only; the driver is not modelled here)
     for _ in range(12 if quick else 120):
         axis = rng.choice(["leadtime", "time"])
@@ -214,6 +215,8 @@ def gen_ops(tier, rng):
         leads = [float(c) for c in _coords(rng, L, 1)]
         if src == "nc" and rng.random() < 0.5 and L > 1:
             rng.shuffle(leads)                       # NetCDF keeps the file's order
+        if src == "nc" and rng.random() < 0.5 and T > 1:
+            rng.shuffle(times)                       # ... of the times too (late runs appended out of order)
         h = rng.choice([1, 2, 3, 5, 40])
         pn = rng.choice([0.0, 0.0, 0.1])
         obs, fcst, ens = _vec(rng, T * L * S, pn), _vec(rng, T * L * S, pn), _vec(rng, T * L * S * M, pn)
